@@ -4,6 +4,8 @@ All quantifiers of the property are finite (25 prefixes, 256 exponents) or
 bounded (strings of <= n bytes); the solver decides each of them over the
 compiled `SIPrefix` code, against the SI-brochure table in spec/catalogue.py.
 """
+import os
+
 from engine.kani.runner import KaniCrate, Harness, rust_str, confirm_failures
 from spec.catalogue import SI_PREFIXES
 
@@ -21,7 +23,7 @@ def tables():
 def run(report, tier):
     n = len(SI_PREFIXES)
     maxlen = max(len(p[1].encode()) for p in SI_PREFIXES) + 2
-    nbytes = 3 if tier == "quick" else 4
+    nbytes = 3 if tier == "quick" else int(os.environ.get("VERIF_C16_BYTES", "8"))
     kc = KaniCrate("c16", "f64", extra_src=tables())
     report.bounds.update({"prefixes": n, "exponent_domain": "all 256 i8 values", "abbr_strings": "every valid UTF-8 string of <= %d bytes" % nbytes,
                           "unwind": n + 2})
@@ -82,7 +84,7 @@ def run(report, tier):
             kani::cover!(r.is_some() && len == 2, "two-byte abbreviation found");
             kani::cover!(r.is_none(), "none");
         }
-    """ % (nbytes, nbytes), unwind=8, key="from_abbr/strings<=%d" % nbytes, timeout=(600 if nbytes <= 3 else 3000),
+    """ % (nbytes, nbytes), unwind=max(8, nbytes + 4), key="from_abbr/strings<=%d" % nbytes, timeout=(600 if nbytes <= 3 else 3000),
                    sample={"harness": "from_abbr_bounded_strings", "symbolic": "any UTF-8 string of <= %d bytes, any table row k" % nbytes,
                            "asserts": "Some(p) => p.abbr()==s ; None => ABBRS[k] != s for every k"}))
 
